@@ -21,11 +21,12 @@ B(i) == [Empty EXCEPT !.i = i]
 B2 == [Empty EXCEPT !.i = 2, !.f = [p |-> TRUE, c |-> 1, d |-> 0]]
 Bodies == { B(0), B(1), B2 }
 
-Plain == [M |-> NilMask, R |-> NilMask, ev |-> NoMsg, chk |-> 0, xa |-> FALSE, cia |-> FALSE, am |-> FALSE,
+Plain == [M |-> NilMask, R |-> NilMask, mm |-> NilMask, ev |-> NoMsg, chk |-> 0, xa |-> FALSE, cia |-> FALSE, am |-> FALSE,
           gen |-> FALSE, first |-> "g", ib |-> 0, ia |-> 0, wt |-> -1]
 UOpts == { Plain, [Plain EXCEPT !.cia = TRUE], [Plain EXCEPT !.cia = TRUE, !.xa = TRUE],
            [Plain EXCEPT !.ev = Some(B(1))], [Plain EXCEPT !.chk = 1, !.cia = TRUE],
-           [Plain EXCEPT !.ib = 1, !.ia = 1], [Plain EXCEPT !.M = Mask(<<<<"i">>>>)],
+           [Plain EXCEPT !.ib = 1, !.ia = 1], [Plain EXCEPT !.M = Mask(<<<<"i">>>>)], [Plain EXCEPT !.mm = Mask(<<<<"i">>>>), !.cia = TRUE],
+           [Plain EXCEPT !.M = Mask(<<<<"f">>>>), !.mm = Mask(<<<<"i">>>>)],
            [Plain EXCEPT !.M = Mask(<<>>), !.cia = TRUE], [Plain EXCEPT !.M = Mask(<<<<"zz">>>>)],
            [Plain EXCEPT !.R = Mask(<<<<"f">>>>), !.wt = 7],
            [Plain EXCEPT !.gen = TRUE, !.cia = TRUE, !.first = "a"], [Plain EXCEPT !.gen = TRUE, !.cia = TRUE, !.xa = TRUE] }
